@@ -3,14 +3,14 @@ check(
     "C17", "exploration",
     "Generated-input search (Hypothesis, seeded) against a reference selection model written from the statement: thousands of include/exclude lists on the real and on synthetic registries through CodemodRegistry.match_codemods, plus end-to-end CLI runs whose executed sequence is read from the log and from results[].codemod. Exploration is the right level: the input space (lists of ids/patterns x registries x modes) is unbounded and the oracle is a 20-line reference function.",
     "Trusted: my reference selection (glob '*' only, whole-id match, first occurrence wins, explicit exclude replaces the default exclusions, SAST mode iff sonar issues or SARIF); ids/patterns restricted to the id alphabet; e2e include lists restricted to detector-less codemods to keep runs cheap (default-set runs are separate shards).",
-    "Hypothesis property-based testing vs. reference model (direct API + CLI end-to-end)",
+    "Hypothesis property-based testing vs. reference model (direct API + CLI end-to-end); coverage-guided atheris/libFuzzer stage driving the same strategy and oracle on match_codemods",
     "DESIGN.md §3 C17",
 )
 check(
     "C12", "exploration",
     "Model-based generated search: a Hypothesis RuleBasedStateMachine drives histories of ResultSet operations (add_result, a|b, a|=b) against one Counter per set, invariant after every step; generated Sonar/SARIF/DefectDojo document families go through the loader functions the detectors use and are compared as multisets with an independent reference extractor; the same families go through the CLI, where the ResultSet handed to each SAST codemod is captured in the forked child. Exploration fits: histories and documents are unbounded, the oracle (multiset union / 40-line extractor) is simple and independent.",
     "Trusted: my reference extractors (what counts as open, which run belongs to which tool, component->path); statuses restricted to unambiguous ones; every Sonar entry has a status; identity only where the format has one (Sonar key, DefectDojo id); CodeQL has no registered codemod so it is checked at loader level only.",
-    "Hypothesis stateful model-based testing + generated documents vs. reference extraction (loader level and CLI)",
+    "Hypothesis stateful model-based testing + generated documents vs. reference extraction (loader level and CLI); coverage-guided atheris/libFuzzer stage on the document loaders",
     "DESIGN.md §3 C12",
 )
 check(
@@ -24,14 +24,14 @@ check(
     "C05", "exploration",
     "Generated-input search at two levels: match_files on generated path and glob lists against an independently written glob/selection reference; and end-to-end runs on generated trees (test/build/venv/VCS dirs, non-Python files, symlinked files and directories inside and outside the target) with generated include/exclude lists in find-and-fix and SAST mode, where the set of files whose bytes changed is read from before/after snapshots of the whole sandbox and must equal trigger files ∩ reference selection, with nothing created, deleted or modified elsewhere. A calibration run that selects everything confirms the trigger files of every tree.",
     "Trusted: my glob translation (fnmatch semantics: '*' crosses '/', whole relative path), the frozen default-exclude list, the single cheap trigger per mode (use-set-literal; sonar fix-assert-tuple). ':N' patterns are chosen so C13's line semantics do not interfere. Symlink loops / permission errors not generated.",
-    "Hypothesis property-based testing vs. reference glob model; snapshot differencing of real CLI runs",
+    "Hypothesis property-based testing vs. reference glob model; snapshot differencing of real CLI runs; coverage-guided atheris/libFuzzer stage on match_files",
     "DESIGN.md §3 C05",
 )
 check(
     "C19", "exploration",
     "Generated-input search on the public pipeline API with a real execution context: text files x safe regex family x finding sets through RegexTransformerPipeline / SastRegexTransformerPipeline against a reference model (re.sub on targeted lines, identity elsewhere, one change per edited line with the findings covering it, dry-run untouched, strict diff round-trip); recursive XML documents written by an own serialiser x attribute maps / new elements x finding modes through XMLTransformerPipeline, before/after compared as canonical trees built by lxml/libxml2 (independent of the expat/SAX stack), expected tree = original with exactly the targeted edits. Exploration fits: documents and edits are unbounded; oracles are a reference model and an independent parser.",
     "Trusted: lxml/libxml2 as the judge of XML content; weak reading of 'insignificant whitespace' (whitespace-only text dropped, text chunks stripped at markup boundaries); XML declaration and empty-element spelling not compared; regex patterns never match line terminators and both readings of 'line' (with/without terminator) are accepted; findings with columns only on elements preceded by ASCII text.",
-    "Hypothesis property-based testing vs. reference edit model; differential XML parsing (libxml2 vs expat); strict unified-diff applier",
+    "Hypothesis property-based testing vs. reference edit model; differential XML parsing (libxml2 vs expat); strict unified-diff applier; coverage-guided atheris/libFuzzer stage on both pipelines",
     "DESIGN.md §3 C19",
 )
 check(
